@@ -2,6 +2,7 @@
 -- the composition theorem with the lower-layer results as named hypotheses (`c01_complete_partial`).
 -- Model: Winter/Model/Protocol.lean (tied to the code by the `glue` correspondence of ./check C01).
 import WinterProofs.Lemmas.C01
+import WinterProofs.Lemmas.C01Gen
 
 namespace WinterProofs.C01
 open Model.Protocol WinterProofs.C01L
@@ -362,5 +363,36 @@ example : fibRun.admissible ∧ LowerLayers fibRun ∧ fibRun.accepts ∧ fibRun
       fun _ _ _ => trivial⟩
   have := c01_complete_partial fibRun hL hadm trivial
   exact ⟨hadm, hL, this.1, this.2⟩
+
+/-! ## tie T: the option logic as regenerated from the Rust sources on this run
+
+`Gen.ProofOpts.*` (air/src/options.rs: `ProofOptions::new`, accessors, `to_fri_options`) and `Gen.FriOpts.*`
+(fri/src/options.rs: `num_fri_layers`) are rewritten by translate/gen.py on every run of the check; the
+theorems equate them with the model definitions the theorems above are about, for all arguments. -/
+
+/-- ★ `ProofOptions::new` (regenerated): its assertions are exactly `Options.accepted` -/
+theorem gen_proof_options_new_ok (q b g e ff fr : Nat) :
+    Gen.ProofOpts.new_ok q b g e ff fr = Options.accepted ⟨q, b, g, ff, fr⟩ :=
+  C01G.gen_new_ok_eq_accepted q b g e ff fr
+
+/-- ★ and it stores its arguments unchanged -/
+theorem gen_proof_options_new_fields (q b g e ff fr : Nat) (h : Gen.ProofOpts.new_ok q b g e ff fr = true) :
+    Gen.ProofOpts.new q b g e ff fr = (q, b, g, e, ff, fr) :=
+  C01G.gen_new_fields q b g e ff fr h
+
+/-- ★ `to_fri_options` (regenerated) of accepted options passes `FriOptions::new` and yields the three numbers
+    `schedule` computes with -/
+theorem gen_to_fri_options (o : Options) (h : o.accepted = true) :
+    Gen.ProofOpts.to_fri_options o.blowup o.folding o.remainder = (o.folding, o.remainder, o.blowup) ∧
+    Gen.ProofOpts.to_fri_options_ok o.blowup o.folding o.remainder = true :=
+  C01G.gen_to_fri_options o h
+
+/-- ★ `num_fri_layers` (regenerated) is the layer count of the model's schedule -/
+theorem gen_num_fri_layers_eq_schedule (o : Options) (h : o.accepted = true) (lde N : Nat)
+    (hd : lde < 18446744073709551616) (hN : 64 ≤ N) :
+    Gen.FriOpts.num_fri_layers N o.blowup o.folding o.remainder lde = (schedule lde o).layers :=
+  C01G.gen_num_fri_layers_eq_schedule o h lde N hd hN
+
+example : Gen.ProofOpts.new_ok 27 8 16 2 8 127 = true ∧ Gen.ProofOpts.new_ok 27 8 33 2 8 127 = false := by decide
 
 end WinterProofs.C01
